@@ -2,6 +2,7 @@
 from __future__ import annotations
 
 import itertools
+import os
 import threading
 
 from .common import Run, bool_s, err_s, list_s, opt_s
@@ -394,6 +395,83 @@ def real_dask(R: Run, case_cfg, partitions_per_sub, split_every, sched, use_mpu_
             pool.shutdown(wait=False)
 
 
+
+SIZES = [0, 3, 10, 25]
+
+
+def _cfgs():
+    out = []
+    for spill in (1, 10, 20):
+        for wpc in (1, 2):
+            for hdr in (None, 0, 5):
+                for ftr in (None, 0, 4):
+                    for mp_ in (1, 5):
+                        out.append((True, 10, mp_, 100, spill, wpc, hdr, ftr))
+    return out
+
+
+def _domain_desc(tier):
+    return ("<=4 partitions x 1-2 chunks of sizes {0,3,10,25} x every binary merge tree x spill {1,10,20} x wpc {1,2} "
+            "x header {none,empty,5} x footer {none,empty,4} x min_part {1,5}, min_write_sz 10; "
+            + ("quick: 3 partitions (inner ones 1 chunk), every 7th configuration"
+               if tier == "quick" else
+               "thorough: 1-2 partitions complete, 3 partitions every 3rd, 4 partitions (<=5 chunks) every 5th configuration"))
+
+
+def _enum(tier):
+    """yield (stride, Case) over the small domain"""
+    quick = tier == "quick"
+    leaf_opts = [[a] for a in SIZES] + [[a, b] for a in SIZES for b in SIZES]
+    cfgs = _cfgs()
+    maxp = 3 if quick else 4
+    for np_ in range(1, maxp + 1):
+        shapes = all_trees(np_)
+        stride = 7 if quick else {1: 1, 2: 1, 3: 3, 4: 5}[np_]
+        for leaves in itertools.product(leaf_opts, repeat=np_):
+            if quick and np_ == 3 and any(len(l) == 2 for l in leaves[1:-1]):
+                continue
+            if np_ == 4 and sum(len(l) for l in leaves) > 5:
+                continue
+            for shape in shapes:
+                tree = fill_tree(shape, leaves)
+                for cfg in cfgs:
+                    yield stride, Case(*cfg, tree)
+
+
+class _Collector:
+    """minimal stand-in for Run inside worker processes"""
+
+    def __init__(self):
+        self.oracle_evals = 0
+        self.oracle_failures = []
+        self.dist = {}
+
+    def oracle(self, ok, key, case, what="", sig=None, trivial=False):
+        self.oracle_evals += 1
+        self.dist["oracle:" + key] = self.dist.get("oracle:" + key, 0) + 1
+        if not ok:
+            if len(self.oracle_failures) < 50:
+                self.oracle_failures.append({"key": key, "case": case, "what": what})
+        return ok
+
+
+def _exhaustive_worker(job):
+    tier, seed, w, nworkers = job
+    col = _Collector()
+    lines = []
+    k = seed % 7
+    for stride, c in _enum(tier):
+        k += 1
+        if k % stride:
+            continue
+        if (k // stride) % nworkers != w:
+            continue
+        o, info = real_direct(c)
+        lines.append((c.line(), o, sig_of(c, o)))
+        oracle(col, c, o, info, "direct")
+    return lines, col.oracle_failures, col.oracle_evals, col.dist
+
+
 def sig_of(case: Case, out: str) -> str:
     leaves = tree_leaves(case.tree)
     sizes = [s for l in leaves for s in l]
@@ -426,43 +504,28 @@ def run(R: Run):
         out = R.corr(c.line(), f, sig="corpus")
         oracle(R, c, res[0][0], res[0][1], "direct")
 
-    # ---------------- exhaustive small domain, direct drive along every merge tree
-    sizes = [0, 3, 10, 25]
-    maxp = R.pick(3, 4)
-    cfgs = []
-    for spill in (1, 10, 20):
-        for wpc in (1, 2):
-            for hdr in (None, 0, 5):
-                for ftr in (None, 0, 4):
-                    for mp in (1, 5):
-                        cfgs.append((True, 10, mp, 100, spill, wpc, hdr, ftr))
-    leaf_opts = [[a] for a in sizes] + [[a, b] for a in sizes for b in sizes]
+    # ---------------- exhaustive small domain, direct drive along every merge tree (parallel workers)
+    import multiprocessing as mp
+
+    nworkers = min(14, os.cpu_count() or 2)
+    jobs = [(R.tier, R.seed, w, nworkers) for w in range(nworkers)]
+    with mp.get_context("fork").Pool(nworkers) as pool:
+        results = pool.map(_exhaustive_worker, jobs)
     n_ex = 0
-    stride = R.pick(7, 1)  # quick: every 7th configuration of the exhaustive space (offset by seed)
-    k = R.seed % stride
-    for np_ in range(1, maxp + 1):
-        shapes = all_trees(np_)
-        for leaves in itertools.product(leaf_opts, repeat=np_):
-            if np_ == maxp and R.quick and any(len(l) == 2 for l in leaves[1:-1]):
-                continue
-            if np_ == 4 and sum(len(l) for l in leaves) > 6:
-                continue
-            for shape in shapes:
-                tree = fill_tree(shape, leaves)
-                for cfg in cfgs:
-                    k += 1
-                    if k % stride:
-                        continue
-                    c = Case(*cfg, tree)
-                    o, info = real_direct(c)
-                    R.corr(c.line(), lambda: o, sig=sig_of(c, o))
-                    oracle(R, c, o, info, "direct")
-                    n_ex += 1
+    for lines, fails, nor, dist in results:
+        for line, out, sig in lines:
+            R.corr(line, (lambda o=out: o), sig=sig)
+        n_ex += len(lines)
+        R.oracle_evals += nor
+        R.oracle_failures += fails
+        for k_, v_ in dist.items():
+            R.count(k_, v_)
     R.extra["exhaustive_small_cases"] = n_ex
-    R.exhaustive = stride == 1
+    R.extra["exhaustive_domain"] = _domain_desc(R.tier)
+    R.exhaustive = False
 
     # ---------------- random larger configurations, direct drive
-    for _ in range(R.pick(3000, 40000)):
+    for _ in range(R.pick(3000, 30000)):
         min_write = rng.choice([0, 1, 4, 10, 16])
         has_w = rng.random() < 0.93
         npart = rng.randint(1, 9)
@@ -484,7 +547,7 @@ def run(R: Run):
         oracle(R, c, o, info, "direct")
 
     # ---------------- real dask graphs (mpu_write / from_dask_bag / fold / collate / finaliser)
-    ndask = R.pick(60, 600)
+    ndask = R.pick(60, 400)
     for i in range(ndask):
         min_write = rng.choice([4, 10])
         nsub = rng.choice([1, 1, 2, 3])
